@@ -361,7 +361,7 @@ func (p *Parser) parseItem() (secs2.Item, error) {
 }
 
 func (p *Parser) parseList(size int) (secs2.Item, error) {
-	childItems := make([]secs2.Item, 0, size)
+	childItems := make([]secs2.Item, 0, p.capHint(size))
 
 	for {
 		switch ch := p.peekNonSpaceRune(); ch {
@@ -419,7 +419,7 @@ func (p *Parser) parseASCIIStrict(size int) (secs2.Item, error) {
 	isNumStr := false
 	isEscapedCh := false
 	var sb strings.Builder
-	sb.Grow(size)
+	sb.Grow(p.capHint(size))
 
 	for i, ch := range p.data {
 		switch {
@@ -672,7 +672,7 @@ func (p *Parser) parseLocalizedStr() (secs2.Item, error) {
 }
 
 func (p *Parser) parseBoolean(size int) (secs2.Item, error) {
-	items := make([]bool, 0, size)
+	items := make([]bool, 0, p.capHint(size))
 	start := p.pos
 	values := p.getItemValueStrings()
 
@@ -691,7 +691,7 @@ func (p *Parser) parseBoolean(size int) (secs2.Item, error) {
 }
 
 func (p *Parser) parseBinary(size int) (secs2.Item, error) {
-	items := make([]byte, 0, size)
+	items := make([]byte, 0, p.capHint(size))
 	start := p.pos
 	values := p.getItemValueStrings()
 
@@ -712,7 +712,7 @@ func (p *Parser) parseBinary(size int) (secs2.Item, error) {
 }
 
 func (p *Parser) parseFloat(byteSize int, size int) (secs2.Item, error) {
-	items := make([]float64, 0, size)
+	items := make([]float64, 0, p.capHint(size))
 	start := p.pos
 	values := p.getItemValueStrings()
 
@@ -733,7 +733,7 @@ func (p *Parser) parseFloat(byteSize int, size int) (secs2.Item, error) {
 }
 
 func (p *Parser) parseInt(byteSize int, size int) (secs2.Item, error) {
-	items := make([]int64, 0, size)
+	items := make([]int64, 0, p.capHint(size))
 	start := p.pos
 	values := p.getItemValueStrings()
 
@@ -754,7 +754,7 @@ func (p *Parser) parseInt(byteSize int, size int) (secs2.Item, error) {
 }
 
 func (p *Parser) parseUint(byteSize int, size int) (secs2.Item, error) {
-	items := make([]uint64, 0, size)
+	items := make([]uint64, 0, p.capHint(size))
 	start := p.pos
 	values := p.getItemValueStrings()
 
@@ -784,6 +784,14 @@ func (p *Parser) getItemValueStrings() []string {
 	p.forward(rabIdx + 1)
 
 	return items
+}
+
+// capHint bounds a declared item size by the number of bytes left to parse. The size hint
+// comes from the text being parsed, so it must never drive an allocation on its own: every
+// element or child item takes at least one byte of input, hence the remaining input length
+// is a safe capacity ceiling (append grows the slice if the hint was an underestimate).
+func (p *Parser) capHint(size int) int {
+	return min(size, len(p.data))
 }
 
 func (p *Parser) parseItemSize() (minSize, maxSize int, err error) {
